@@ -112,7 +112,7 @@ class Path:
 
 class PathAI:
     def __init__(self, prog, fn, max_paths=4096, backedge_limit=1, writers=None, record_loads=True,
-                 assume=None):
+                 assume=None, unroll=False):
         self.prog = prog
         self.fn = fn
         self.max_paths = max_paths
@@ -122,6 +122,15 @@ class PathAI:
         self.paths = []
         self.dropped = 0
         self.assume = assume or []      # [(term, truth)] preconditions (e.g. config facts)
+        # unroll=True: counted loops whose bounds fold to constants under `assume` are followed
+        # iteration by iteration (conditional constant propagation) instead of being havocked
+        self.arg_consts = {}
+        for t, v in self.assume:
+            if v and t[0] == "icmp" and t[1] == "eq" and t[2][0] == "arg" and t[3][0] == "c":
+                self.arg_consts[t[2][1]] = t[3]
+        self.unroll = unroll
+        if unroll and backedge_limit == 1:
+            self.backedge_limit = 130
         self._dom_cache = {}
         self._loopw = None
 
@@ -142,6 +151,38 @@ class PathAI:
             r = self.dominates(v, u)
             self._dom_cache[k] = r
         return r
+
+    _PURE = ("add", "sub", "mul", "and", "or", "xor", "shl", "lshr", "ashr", "udiv", "urem", "icmp", "zext", "sext",
+             "trunc", "bitcast", "ptrtoint", "inttoptr", "getelementptr", "select")
+
+    def _first_test(self, blk, ids, nphi, pred, env, facts):
+        """On the first visit of a loop header the generic (havocked) state is analysed, but the
+        loop test itself is evaluated once more on the *initial* values: if that decides it, the
+        result says which edge the first visit really takes."""
+        insts = self.fn.insts
+        sh = dict(env)
+        for iid in ids[:nphi]:
+            t = None
+            for v, pb in insts[iid]["inc"]:
+                if pb == pred:
+                    t = self.val(v, env)
+            if t is None:
+                return None
+            sh[iid] = t
+        for iid in ids[nphi:]:
+            ins = insts[iid]
+            op = ins["op"]
+            if op == "br":
+                if "cond" not in ins:
+                    return None
+                tv = facts.truth(self.val(ins["cond"], sh))
+                return tv
+            if op not in self._PURE:
+                return None
+            t = self._eval(ins, iid, 0, sh, facts, [], frozenset())
+            if t is not None:
+                sh[iid] = t
+        return None
 
     # ---- loops: memory written inside a loop is unknown at its head -----------------------
     def loop_written(self):
@@ -207,6 +248,8 @@ class PathAI:
                 return ("undef",)
             return t
         if k == "a":
+            if o[1] in self.arg_consts:
+                return self.arg_consts[o[1]]
             return ("arg", o[1])
         if k == "i":
             v = o[1]
@@ -265,7 +308,7 @@ class PathAI:
                     break
                 n += 1
                 oc = occ.get(iid, 0)
-                if blk["loophdr"]:
+                if blk["loophdr"] and not self.unroll:
                     newvals[iid] = ("havoc", iid, oc)
                     for v, pb in ins["inc"]:
                         if pb == pred:
@@ -282,8 +325,11 @@ class PathAI:
                         t = ("havoc", iid, oc)
                     newvals[iid] = t
                 occ[iid] = oc + 1
+            forced = None
+            if blk["loophdr"] and not self.unroll and pred != -1 and not self.is_backedge(pred, b):
+                forced = self._first_test(blk, ids, n, pred, env, facts)
             env.update(newvals)
-            if blk["loophdr"]:
+            if blk["loophdr"] and not self.unroll:
                 be = Ev("loophead", ids[0] if ids else 0, 0)
                 be.args = self.loop_written()[b]
                 be.idx = len(events)
@@ -304,6 +350,10 @@ class PathAI:
                             outs.append((succ[0], True))
                         if tv is not True:
                             outs.append((succ[1], False))
+                        if forced is not None and blk["insts"][-1] == iid:
+                            # the loop test on entry, evaluated on the initial values, is decided:
+                            # the other edge cannot be taken on this first visit
+                            outs = [(s_, v_) for s_, v_ in outs if v_ == forced]
                         outs = [(s, v) for s, v in outs
                                 if not (self.is_backedge(b, s) and bes.get((b, s), 0) >= self.backedge_limit)]
                         if not outs:
@@ -542,7 +592,9 @@ class PathAI:
         size = ins["size"]
         r, off = _parts(addr)
         res = None
-        if not ins.get("vol"):
+        # a volatile access must be performed, but a local whose address never escapes still holds
+        # the last value stored to it
+        if not ins.get("vol") or (r[0] == "alloca" and r not in escaped):
             for e in reversed(events):
                 if e.kind == "store":
                     if e.addr == addr and e.size == size:
@@ -564,7 +616,7 @@ class PathAI:
                         continue
                     break
                 elif e.kind == "load":
-                    if e.addr == addr and e.size == size and not e.vol:
+                    if e.addr == addr and e.size == size and (not e.vol or (r[0] == "alloca" and r not in escaped)):
                         res = e.res
                         break
                 elif e.kind == "call":
